@@ -7,21 +7,35 @@ VERUS = {
     # {simple,karatsuba,toom_3}::add_signed_mul: val(c') + ret*B^|c| == val(c) + sgn(sign)*val(a)*val(b), -1 <= ret <= 1;
     # multiply: val(c') == val(a)*val(b).  Termination of the dispatch/chunking cycle by (smaller length, total, rank).
     'int_mul_dispatch': {'file': 'int_mul_dispatch.rs', 'w32': True},
+    # mul::mul_dword_in_place: words *= rhs (double word), val(words') + ret*B^n == val(words)*rhs; the chunks_exact_mut(2)
+    # iteration + into_remainder() is lowered by rules D1d / D1c
+    'int_mul_dword': {'file': 'int_mul_dword.rs', 'w32': True},
     # karatsuba::add_signed_mul_same_len: three half-size products through the dispatcher's contract, the
     # |a0-a1|*|b0-b1| sign trick, seven in-place accumulations with carries at 2m / 3m / 2n: same post as the schoolbook kernel
     'int_mul_karatsuba': {'file': 'int_mul_karatsuba.rs', 'w32': True},
     # toom_3::add_signed_mul_same_len: evaluation of A(x)B(x) at 0, 1, -1, 2, inf (five third-size products through the
     # dispatcher's contract), interpolation with the EXACT divisions by 6 and 2 proved (remainders are proof obligations),
     # thirteen in-place accumulations with carries at 2k, 3k+2, 4k+2, 5k+2, 2n: same post as the schoolbook kernel.
-    # One long SMT query (about 25 s, rlimit attribute in the annotated copy; its `ensures false` canary needs ~4 min).
+    # One long SMT query (about 25-40 s, rlimit attribute in the annotated copy; its `ensures false` canary needs ~4 min).
+    # The unit also holds the dispatcher mul::add_signed_mul_same_len and karatsuba::add_signed_mul_same_len as FN: the whole
+    # recursion cycle dispatcher -> karatsuba / toom_3 -> dispatcher is in one file and its termination (decreases: factor
+    # length, dispatcher ranked above the algorithms) is machine-checked.
     'int_mul_toom3': {'file': 'int_mul_toom3.rs', 'w32': True},
     # sqr::sqr (dispatch: simple squaring <= 30 words, else the multiplication dispatcher) and sqr::simple::square
     # (diagonal trick: off-diagonal products once, then b = 2b + sum a_i^2 B^(2i) fused): val(b') == val(a)^2
     'int_sqr': {'file': 'int_sqr.rs', 'w32': True},
+    # root::{sqrt_rem, sqrt_rem_42} (Karatsuba square root, Zimmermann): for a normalized 2n-word input
+    # val(a) == s^2 + (r + carry*B^n), r + carry*B^n <= 2 s (s = root in b, r = a'[..n]); recursion on the high half
+    # (decreases n), division by s1 + halving of the quotient, q^2 by sqr::sqr, at most one correction step.
+    # One long SMT query (about 20 s, rlimit attribute in the annotated copy).
+    'int_root_sqrt': {'file': 'int_root_sqrt.rs', 'w32': True},
 }
 
 PROP_UNITS = {
-    'C01': {'verus': ['int_mul_dispatch', 'int_mul_karatsuba', 'int_mul_toom3', 'int_sqr'],
+    'C01': {'verus': ['int_mul_dispatch', 'int_mul_dword', 'int_mul_karatsuba', 'int_mul_toom3', 'int_sqr'],
             'undecided': ['Memory scratch allocator: allocate_slice_* contracts assumed (lib/mulalg_stubs.rs); sizing of the '
                           'scratch area (memory_requirement_*) not verified (too small => panic, never a wrong value)']},
+    'C12': {'verus': ['int_root_sqrt'],
+            'undecided': ['DoubleWord::sqrt_rem / div_rem of dashu-base (machine-integer kernels) and primitive::highest_dword: '
+                          'contracts assumed by int_root_sqrt (lib/mulalg_root_stubs.rs, lib/div_simple_stubs.rs)']},
 }
